@@ -3,7 +3,7 @@ package props
 import (
 	"go/types"
 
-	"golang.org/x/tools/go/ssa"
+	"verif/third_party/xtools/go/ssa"
 
 	"verif/internal/core"
 )
